@@ -7,6 +7,7 @@ import (
 	shared_config "lunar/shared-model/config"
 	"lunar/toolkit-core/client"
 	context_manager "lunar/toolkit-core/context-manager"
+	"lunar/toolkit-core/urltree"
 	"net/http"
 	"regexp"
 	"strings"
@@ -55,9 +56,6 @@ var (
 	haproxyReqCaptureNeededFrom = "http://localhost:" + haproxyManagePort + "/capture_req_from"
 	haproxyReqCaptureFormAll    = "http://localhost:" + haproxyManagePort + "/capture_req_all"
 )
-
-// A whole path segment that is a path parameter, e.g. {userID}
-var regexPathParameterSegment = regexp.MustCompile(`^\{[a-zA-Z0-9-_]+\}$`)
 
 type HAProxyEndpointData struct {
 	Endpoint     string
@@ -142,10 +140,11 @@ func HaproxyEndpointFormat(
 	wildcardLiteral := "/*"
 	hasWildcard := strings.HasSuffix(url, wildcardLiteral)
 	url = strings.TrimSuffix(url, wildcardLiteral)
-	// Every segment is matched literally (regex metacharacters quoted), except path parameters
+	// Every segment is matched literally (regex metacharacters quoted), except path parameters:
+	// the segments the engine's URL tree treats as parameters, whatever their name
 	segments := strings.Split(url, "/")
 	for i, segment := range segments {
-		if i > 0 && regexPathParameterSegment.MatchString(segment) {
+		if _, isPathParameter := urltree.TryExtractPathParameter(segment); i > 0 && isPathParameter {
 			segments[i] = strings.TrimPrefix(RegexToReplacePathParameters, "/")
 		} else {
 			segments[i] = regexp.QuoteMeta(segment)
